@@ -535,6 +535,10 @@ func parseContractText(c *Contracts, pkgPath, file string, lines []rawLine) erro
 				if fields[i] == "props" && i+1 < len(fields) {
 					cur.Props = strings.Split(fields[i+1], ",")
 					i++
+				} else if fields[i] == "roots" {
+					// the functions of this signature are entered only through values of the type: the requires clauses
+					// (checked at every dynamic call) are the default precondition of such a function without a contract
+					cur.Flags["roots"] = true
 				}
 			}
 			c.Funcs[cur.Pkg+"."+cur.Name] = cur
